@@ -26,13 +26,19 @@ func InitGenesis(ctx sdk.Context, k keeper.Keeper, data types.GenesisState) {
 			panic(fmt.Errorf("unknown servcie request context: %s", entry.Feed.RequestContextID))
 		}
 
-		for _, value := range entry.Values {
+		// values are exported newest first; store them oldest first under
+		// consecutive batch counters ending at the current one, so that the
+		// whole history and its order survive the import
+		if uint64(len(entry.Values)) > reqCtx.BatchCounter+1 {
+			panic(fmt.Errorf("feed %s has more values than request batches", entry.Feed.FeedName))
+		}
+		for i := len(entry.Values) - 1; i >= 0; i-- {
 			k.SetFeedValue(
 				ctx,
 				entry.Feed.FeedName,
-				reqCtx.BatchCounter,
+				reqCtx.BatchCounter-uint64(i),
 				entry.Feed.LatestHistory,
-				value,
+				entry.Values[i],
 			)
 		}
 
